@@ -72,6 +72,8 @@ func TestVerif_C19_Tecdsa(t *testing.T) {
 			Gen: func(rng *rand.Rand, i int) c19Codec {
 				return &Signature{R: c19BigInt(rng, 32), S: c19BigInt(rng, 40), RecoveryID: int8(rng.Intn(256) - 128)}
 			},
+			// int32 recoveryID = 3 is narrowed to int8
+			Ranges: []c19Range{{Path: "3", Min: -128, Max: 127, Signed: true}},
 		},
 	})
 }
